@@ -385,6 +385,8 @@ func (p *printer) node(n *Node, ind int) {
 			target = "Box[string]{Value: " + p.src(n.E, false, ind) + "}.View()"
 		case n.Callee == "flush":
 			target = "templ.Flush()"
+		case n.Callee == "capture":
+			target = "capture()"
 		case n.Callee == "index0":
 			target = "comps[0]"
 		case n.Callee == "index1":
